@@ -24,8 +24,18 @@ package values
 //@ spec modelWidth(m *admin.ReadWritePath) int = ite(m != nil && len(m.TypeOpts) > 0, m.TypeOpts[0], configapi.WidthThirtyTwo)
 //@ spec gnmiKind(v *gnmi.TypedValue, t string) bool = v != nil && isType(v.Value, t)
 
+// Messages decoded from the wire (protobuf unmarshalling): a set oneof always carries its non-nil
+// wrapper, a message-typed oneof member is allocated even when empty, and repeated message fields
+// never hold nil elements. Requests reach the handlers only through gRPC decoding, so the no-panic
+// obligations (C12) are stated under this precondition; it is an assumption about the protobuf
+// runtime, listed in the evidence.
+//@ spec wireValidScalar(v *gnmi.TypedValue) bool = v != nil ==> ((isType(v.Value, "*gnmi.TypedValue_StringVal") ==> asType(v.Value, "*gnmi.TypedValue_StringVal") != nil) && (isType(v.Value, "*gnmi.TypedValue_AsciiVal") ==> asType(v.Value, "*gnmi.TypedValue_AsciiVal") != nil) && (isType(v.Value, "*gnmi.TypedValue_IntVal") ==> asType(v.Value, "*gnmi.TypedValue_IntVal") != nil) && (isType(v.Value, "*gnmi.TypedValue_UintVal") ==> asType(v.Value, "*gnmi.TypedValue_UintVal") != nil) && (isType(v.Value, "*gnmi.TypedValue_BoolVal") ==> asType(v.Value, "*gnmi.TypedValue_BoolVal") != nil) && (isType(v.Value, "*gnmi.TypedValue_BytesVal") ==> asType(v.Value, "*gnmi.TypedValue_BytesVal") != nil) && (isType(v.Value, "*gnmi.TypedValue_DecimalVal") ==> asType(v.Value, "*gnmi.TypedValue_DecimalVal") != nil) && (isType(v.Value, "*gnmi.TypedValue_FloatVal") ==> asType(v.Value, "*gnmi.TypedValue_FloatVal") != nil) && (isType(v.Value, "*gnmi.TypedValue_LeaflistVal") ==> asType(v.Value, "*gnmi.TypedValue_LeaflistVal") != nil) && (isType(v.Value, "*gnmi.TypedValue_JsonVal") ==> asType(v.Value, "*gnmi.TypedValue_JsonVal") != nil) && (isType(v.Value, "*gnmi.TypedValue_JsonIetfVal") ==> asType(v.Value, "*gnmi.TypedValue_JsonIetfVal") != nil) && (isType(v.Value, "*gnmi.TypedValue_AnyVal") ==> asType(v.Value, "*gnmi.TypedValue_AnyVal") != nil) && (isType(v.Value, "*gnmi.TypedValue_ProtoBytes") ==> asType(v.Value, "*gnmi.TypedValue_ProtoBytes") != nil) && (isType(v.Value, "*gnmi.TypedValue_DecimalVal") ==> asType(v.Value, "*gnmi.TypedValue_DecimalVal").DecimalVal != nil))
+//@ spec wireValidTV(v *gnmi.TypedValue) bool = wireValidScalar(v) && (v != nil && isType(v.Value, "*gnmi.TypedValue_LeaflistVal") && asType(v.Value, "*gnmi.TypedValue_LeaflistVal").LeaflistVal != nil ==> (forall e in asType(v.Value, "*gnmi.TypedValue_LeaflistVal").LeaflistVal.Element :: e != nil && wireValidScalar(e)))
+
 //@ func GnmiTypedValueToNativeType(gnmiTv, modelPath) (v, err)
-//@   props C17
+//@   props C17, C12
+//@   safe
+//@   requires wireValidTV(gnmiTv)
 //@   modifies checkFailures
 // ghost bookkeeping of refusals (C13): real code cannot touch ghost state, so this clause is assumed at call sites
 //@   assumed ensures checkFailures == old(checkFailures) + ite(err == nil, 0, 1)
@@ -40,13 +50,16 @@ package values
 //@   fresh v
 
 //@ func handleLeafList(gnmiLl, typeOpt0) (v, err)
-//@   props C17
+//@   props C17, C12
+//@   safe
+//@   requires gnmiLl != nil && (gnmiLl.LeaflistVal != nil ==> (forall e in gnmiLl.LeaflistVal.Element :: e != nil && wireValidScalar(e)))
 //@   modifies nothing
 //@   ensures err == nil ==> v != nil
 //@   fresh v
 
 //@ func NativeTypeToGnmiTypedValue(typedValue) (g, err)
-//@   props C17
+//@   props C17, C12
+//@   safe
 //@   requires typedValue != nil
 //@   modifies nothing
 //@   ensures {C17} string-back: typedValue.Type == configapi.ValueType_STRING ==> err == nil && g != nil && isType(g.Value, "*gnmi.TypedValue_StringVal") && asType(g.Value, "*gnmi.TypedValue_StringVal").StringVal == tvString(typedValue)
